@@ -331,7 +331,14 @@ func (fc *funcContext) translateFunctionBody(typ *ast.FuncType, recv *ast.Ident,
 
 	if len(fc.Flattened) != 0 {
 		prefix = prefix + " s: while (true) { switch ($s) { case 0:"
-		suffix = " } return; }" + suffix
+		fallOff := " } return; }"
+		if fc.HasDefer && fc.resultNames == nil && fc.sig.HasResults() {
+			// The end of the switch is only reached when the function is resumed after a deferred call
+			// suspended while a panic was being handled ($s is -1 then): as in the catch block, the
+			// function returns the zero values of its unnamed results unless a panic is still in flight.
+			fallOff = fmt.Sprintf(" } return%s; }", fc.translateResults(nil))
+		}
+		suffix = fallOff + suffix
 	}
 
 	if fc.HasDefer {
